@@ -157,6 +157,9 @@ type Spec struct {
 	Padding   []byte
 	EphLabel  string
 	Info      []byte // nil = standard "tls ech\0"||config
+	// InnerSID: session id left inside EncodedClientHelloInner (a conforming client leaves it empty;
+	// the server must substitute the outer hello's id whatever it finds there)
+	InnerSID []byte
 }
 
 // Built is a sealed hello.
@@ -218,6 +221,11 @@ func (s Spec) BuildWith(sealer *tlsref.Sealer, withEnc bool) Built {
 	inner := s.InnerBase.Clone()
 	inner.Exts = s.EncInner
 	enc := tlsref.EncodeInner(inner, s.Padding)
+	if len(s.InnerSID) > 0 {
+		c := inner.Clone()
+		c.SessionID = s.InnerSID
+		enc = append(c.Body(), s.Padding...)
+	}
 	outer := s.Outer.Clone()
 	sealer.Seal(outer, s.EchIdx, enc, withEnc)
 	b := Built{Outer: outer, EncodedInner: enc, Sealer: sealer}
